@@ -15,7 +15,7 @@ import (
 
 func init() {
 	register(&core.Rule{ID: "T3", Min: 4,
-		Doc: "Default search validates: ast.NewSearcher's option literal sets ValidateJSON: true, and the bodies of sonic.Get, sonic.GetFromString and sonic.GetCopyFromString (following calls within package sonic, depth 2) install no ast.SearchOptions literal without ValidateJSON: true and never assign ValidateJSON a value other than true; otherwise malformed values (`[1 2]`, `{\"b\":1,}`) at the searched path are returned without error.",
+		Doc: "Default search validates: ast.NewSearcher's option literal sets ValidateJSON: true, and the bodies of sonic.Get, sonic.GetFromString and sonic.GetCopyFromString (following calls within packages sonic and ast, depth 3; NewSearcher itself excluded) install no ast.SearchOptions literal without ValidateJSON: true and never assign ValidateJSON a value other than true; otherwise malformed values (`[1 2]`, `{\"b\":1,}`) at the searched path are returned without error.",
 		Run: runT3})
 }
 
@@ -65,7 +65,7 @@ func runT3(c *core.Ctx) {
 		seen := map[*ast.FuncDecl]bool{}
 		var visit func(f *ast.FuncDecl, depth int)
 		visit = func(f *ast.FuncDecl, depth int) {
-			if seen[f] || depth > 2 {
+			if seen[f] || depth > 3 {
 				return
 			}
 			seen[f] = true
@@ -82,7 +82,7 @@ func runT3(c *core.Ctx) {
 						}
 					}
 				case *ast.CallExpr:
-					if o := p.Callee(x); o != nil && o.Pkg() != nil && core.Rel(o.Pkg().Path()) == "" {
+					if o := p.Callee(x); o != nil && o.Pkg() != nil && (core.Rel(o.Pkg().Path()) == "" || (core.Rel(o.Pkg().Path()) == "ast" && o.Name() != "NewSearcher")) {
 						if d := p.DeclOf(o); d != nil && d.Body != nil {
 							// a callee that takes the options as a parameter is fine in itself; the literal passed is judged here
 							visit(d, depth+1)
